@@ -65,3 +65,7 @@ func VerifModeName(m int) string {
 // VerifLockHeld reports whether the running controlled goroutine holds the UI lock
 // (always true outside an exploration, where nothing can be said).
 func (s *State) VerifLockHeld() bool { return s.m.HeldByCurrent() }
+
+// VerifSize reads the terminal size the state currently assumes (call with the lock held
+// by the caller's goroutine, e.g. from the output callback).
+func (s *State) VerifSize() (int, int) { return s.width, s.height }
